@@ -174,19 +174,24 @@ pub fn run(rep: &mut Rep) {
             w.sim.log_enabled = n <= 40;
             for j in 0..n {
                 let i = w.start(j % 2, if j % 3 == 2 { Kind::Pub2 } else { Kind::Pub1 });
-                w.settle();
+                if j % 6 == 5 || j % 7 == 3 {
+                    // (the model learns what is on the wire when it checks)
+                    w.settle_check();
+                } else {
+                    w.settle();
+                }
                 if j % 6 == 5 && w.m[i].req_wire.is_some() {
                     w.deliver_ack(i, 1, 0, 0);
-                    w.settle();
+                    w.settle_check();
                 }
                 if j % 7 == 3 {
                     // one exchange finishes completely in between
                     if let Some(&(k, st)) = w.ackable().first() {
                         w.deliver_ack(k, st, 0, 0);
-                        w.settle();
+                        w.settle_check();
                         if let Some(&(k2, st2)) = w.ackable().iter().find(|(x, s2)| *x == k && *s2 == 2) {
                             w.deliver_ack(k2, st2, 0, 0);
-                            w.settle();
+                            w.settle_check();
                         }
                     }
                 }
